@@ -798,11 +798,44 @@ func c06numaSplit(c *Ctx) {
 	}
 }
 
-// cellSources: the values a value can come from when it is a load of a local cell (recursively), else the value itself.
+// cellSources: the values a value can come from when it is a load of a local cell (recursively; a cell captured by a
+// closure is followed to the enclosing function, provided no closure writes it), else the value itself.
 func cellSources(v ssa.Value) []ssa.Value {
 	seen := map[ssa.Value]bool{}
 	var out []ssa.Value
 	var walk func(v ssa.Value)
+	storesOf := func(a *ssa.Alloc) (vals []ssa.Value, ok bool) {
+		if a.Referrers() == nil {
+			return nil, false
+		}
+		for _, ref := range *a.Referrers() {
+			switch x := ref.(type) {
+			case *ssa.Store:
+				if x.Addr == ssa.Value(a) {
+					vals = append(vals, x.Val)
+				}
+			case *ssa.MakeClosure:
+				// the closure must not assign the captured variable
+				f, _ := x.Fn.(*ssa.Function)
+				for k, b := range x.Bindings {
+					if b != ssa.Value(a) || f == nil || k >= len(f.FreeVars) {
+						continue
+					}
+					if refs := f.FreeVars[k].Referrers(); refs != nil {
+						for _, r2 := range *refs {
+							if st, isSt := r2.(*ssa.Store); isSt && st.Addr == ssa.Value(f.FreeVars[k]) {
+								return nil, false
+							}
+							if _, isMC := r2.(*ssa.MakeClosure); isMC {
+								return nil, false
+							}
+						}
+					}
+				}
+			}
+		}
+		return vals, len(vals) > 0
+	}
 	walk = func(v ssa.Value) {
 		v = an.Origin(v)
 		if seen[v] {
@@ -810,15 +843,35 @@ func cellSources(v ssa.Value) []ssa.Value {
 		}
 		seen[v] = true
 		if ld, ok := v.(*ssa.UnOp); ok && ld.Op == token.MUL {
-			if a, ok := ld.X.(*ssa.Alloc); ok && a.Referrers() != nil {
-				n := 0
-				for _, ref := range *a.Referrers() {
-					if st, ok := ref.(*ssa.Store); ok && st.Addr == ssa.Value(a) {
-						walk(st.Val)
-						n++
+			var cell *ssa.Alloc
+			switch x := ld.X.(type) {
+			case *ssa.Alloc:
+				cell = x
+			case *ssa.FreeVar:
+				// the variable of the enclosing function this closure captured
+				fn := x.Parent()
+				if par := fn.Parent(); par != nil {
+					for k, fv := range fn.FreeVars {
+						if fv != x {
+							continue
+						}
+						for _, b := range par.Blocks {
+							for _, in := range b.Instrs {
+								if mc, isMC := in.(*ssa.MakeClosure); isMC && mc.Fn == ssa.Value(fn) && k < len(mc.Bindings) {
+									if a, isA := mc.Bindings[k].(*ssa.Alloc); isA {
+										cell = a
+									}
+								}
+							}
+						}
 					}
 				}
-				if n > 0 {
+			}
+			if cell != nil {
+				if vals, ok := storesOf(cell); ok {
+					for _, s := range vals {
+						walk(s)
+					}
 					return
 				}
 			}
